@@ -28,7 +28,7 @@ const MainName = "<main>"
 
 func CreateBytecodeCompiler(parent *BytecodeCompiler, checker types.Checker, loc *position.Location, errors *diagnostic.SyncDiagnosticList, additionalAbortChecks bool) *BytecodeCompiler {
 	compiler := NewBytecodeCompiler(loc.FilePath, topLevelBytecodeCompilerMode, loc, checker, newBytecodeGlobalData())
-	compiler.additionalAbortChecks = additionalAbortChecks
+	compiler.setAdditionalAbortChecks(additionalAbortChecks)
 	compiler.Errors = errors
 	compiler.parent = parent
 	return compiler
@@ -48,7 +48,7 @@ func CreateBreakpointCompiler(checker types.Checker, context *BytecodeBreakpoint
 
 func (c *BytecodeCompiler) CreateMainCompiler(checker types.Checker, loc *position.Location, errors *diagnostic.SyncDiagnosticList, output io.Writer, additionalAbortChecks bool) Compiler {
 	compiler := NewBytecodeCompiler(loc.FilePath, topLevelBytecodeCompilerMode, loc, checker, newBytecodeGlobalData())
-	compiler.additionalAbortChecks = additionalAbortChecks
+	compiler.setAdditionalAbortChecks(additionalAbortChecks)
 	compiler.predefinedLocals = c.maxLocalIndex + 1
 	compiler.scopes = c.scopes
 	compiler.lastLocalIndex = c.lastLocalIndex
@@ -248,6 +248,17 @@ func newBytecodeCall(methodName value.Symbol, bytecode *vm.BytecodeFunction, off
 
 type bytecodeGlobalData struct {
 	callsToOptimise *concurrent.Slice[*bytecodeCall]
+	// inherited by every compiler created for a nested function (method, closure, generator, ...)
+	additionalAbortChecks bool
+}
+
+// Enable or disable additional abort checks in this compiler and in all
+// compilers that will share its global data (nested functions).
+func (c *BytecodeCompiler) setAdditionalAbortChecks(val bool) {
+	c.additionalAbortChecks = val
+	if c.globalData != nil {
+		c.globalData.additionalAbortChecks = val
+	}
 }
 
 func newBytecodeGlobalData() *bytecodeGlobalData {
@@ -299,6 +310,9 @@ func NewBytecodeCompiler(name string, mode bytecodeCompilerMode, loc *position.L
 		checker:        checker,
 		globalData:     globalData,
 		Errors:         diagnostic.NewSyncDiagnosticList(),
+	}
+	if globalData != nil {
+		c.additionalAbortChecks = globalData.additionalAbortChecks
 	}
 	// reserve the first slot on the stack for `self`
 	c.defineLocal("$self", position.DefaultLocation)
